@@ -259,6 +259,22 @@ pub fn oracle(f: u32, a: &Args, out: &Args) -> Option<(&'static str, String)> {
     match f {
         // C13 metamorphic: args carry [ts], bytes, and optionally the same exchange without insertions
         301 | 302 => {
+            // C12: a WebTransport signal is only acceptable as the FIRST frame of a peer-initiated
+            // bidirectional stream; on every other typestate, or later, it must be refused
+            {
+                let (ks, _) = known_frames(out);
+                for (i, (h, _)) in ks.iter().enumerate() {
+                    if h[0] == 3 && (a[0][0] != 0 || i > 0) {
+                        return Some(("C12", format!("WebTransport signal accepted as frame #{} on typestate {}", i, a[0][0])));
+                    }
+                    if h[0] == 2 && a[0][0] != 2 {
+                        return Some(("C12", "SETTINGS accepted on a request stream".into()));
+                    }
+                    if (h[0] == 0 || h[0] == 1) && a[0][0] == 2 {
+                        return Some(("C12", "DATA/HEADERS accepted on the control stream".into()));
+                    }
+                }
+            }
             if f == 302 {
                 // C15: the buffered reader leaves the read position where it was unless it returns a frame
                 let mut prev = 0u64;
@@ -297,6 +313,21 @@ pub fn oracle(f: u32, a: &Args, out: &Args) -> Option<(&'static str, String)> {
                 let class = |l: &Vec<u64>| -> Vec<u64> { if l.is_empty() { vec![] } else { vec![l[0], l[2]] } };
                 if strip(k1.clone()) != strip(k0.clone()) || class(&l1) != class(&l0) {
                     return Some(("C13", format!("inserting unknown/GREASE frames changed the async outcome: with={:?}/{:?} without={:?}/{:?}", k1.len(), l1, k0.len(), l0)));
+                }
+            }
+            // C12: a frame truncated by FIN is H3_FRAME_ERROR on every typestate, never a bare I/O error
+            if a[3][0] == 0 {
+                let (_, la) = known_frames(out);
+                if la.len() >= 3 && la[0] == 3 && la[2] == 1 {
+                    return Some(("C12", "frame truncated by FIN reported as an I/O error instead of H3_FRAME_ERROR".into()));
+                }
+            }
+            {
+                let (ks, _) = known_frames(out);
+                for (i, (h, _)) in ks.iter().enumerate() {
+                    if h[0] == 3 && (a[0][0] != 0 || i > 0) {
+                        return Some(("C12", format!("WebTransport signal accepted as frame #{} on typestate {} (async)", i, a[0][0])));
+                    }
                 }
             }
             // C15: the async path on (bytes, Fin) agrees with the sync path
